@@ -43,6 +43,13 @@ def vv_namespace(ctx):
                 nm = ctx.rng.choice(["bb", "aa/cc"])
                 lit = W.make_msg(1)
                 w.cmd("A", f"t APPEND {nm} {{{len(lit)}}}\r\n" + lit.decode())
+                # a subscribed mailbox (or one with inferiors) survives DELETE as a \Noselect placeholder: the
+                # UIDVALIDITY clause holds for it as well
+                sub = ctx.rng.random() < 0.5
+                if sub:
+                    w.cmd("A", f"t SUBSCRIBE {nm}")
+                if nm == "bb" and ctx.rng.random() < 0.4:
+                    w.cmd("A", "t CREATE bb/kid")
                 w.cmd("A", f"t DELETE {nm}")
                 if ctx.rng.random() < 0.5:
                     w.restart()
@@ -90,6 +97,21 @@ def run(ctx):
             ctx.violation("UID ledger violated on the implementation: " + d,
                           {"seed": h.seed, "step": k, "ops_up_to_step": [repr(o) for o in h.ops[:k + 1]],
                            "snapshot_after": h.snaps[k][1]["boxes"] if h.snaps[k][1] else None})
+    # deliveries the server cannot see yet (same second as its last look at the folder: the mtime test skips the
+    # resync): not in the model - the UID ledger and the UID<->content binding are checked on the implementation alone
+    sh = mboxx.generate(ctx, 120 if ctx.thorough else 24, 40, mix=dict(MIX, sdeliver=9, copy=9, move=5, append=8, deliver=2,
+                                                                         restart=0), pack=(4, 4, 5))
+    for h in sh:
+        if h.error:
+            ctx.violation("the implementation raised while running a history", {"seed": h.seed, "ops": [repr(o) for o in h.ops], "error": h.error})
+            continue
+        ctx.count({"unseen_deliveries": True, "sessions": h.nsess, "ops": [repr(o) for o in h.ops[:12]] + ["..."], "seed": h.seed},
+                  nontrivial=any(o[0] == "sdeliver" for o in h.ops))
+        for (k, d) in (mboxx.uid_oracle(h) + mboxx.binding_oracle(h))[:1]:
+            ctx.violation("with deliveries the server has not seen yet: UID ledger / binding violated on the implementation: " + d,
+                          {"seed": h.seed, "step": k, "ops_up_to_step": [repr(o) for o in h.ops[:k + 1]],
+                           "snapshot_after": h.snaps[k][1]["boxes"] if h.snaps[k][1] else None})
+    ctx.extra["histories_with_unseen_deliveries"] = len(sh)
     ctx.coq.build(["Model/MboxCmp.vo"])
     bad, _ = mboxx.compare(ctx, "c02", hs)
     report_diffs(ctx, "C02", hs, bad, "model (proved) and implementation disagree (UIDs / UIDNEXT / response codes)")
